@@ -969,12 +969,20 @@ func runCase(o *hx.Out, f *hx.Flags, k int, t *tb) {
 		}
 	}
 	var rolePubs []any
+	var rolePrivs []*keys.PrivateKey
+	// the state validators designated so far: (first height they are in charge of, how many of rolePrivs)
+	type svEntry struct {
+		from uint32
+		n    int
+	}
+	var svs []svEntry
 	for i := 0; i < 3; i++ {
 		pk, err := keys.NewPrivateKeyFromBytes(append(make([]byte, 31), byte(i+1)))
 		if err != nil {
 			panic(err)
 		}
 		rolePubs = append(rolePubs, pk.PublicKey().Bytes())
+		rolePrivs = append(rolePrivs, pk)
 	}
 
 	recs := map[uint32]*heightRec{}
@@ -1183,6 +1191,9 @@ func runCase(o *hx.Out, f *hx.Flags, k int, t *tb) {
 			emit.AppCall(w.BinWriter, roleHash, "designateAsRole", callflag.All, int64(role), rolePubs[:n])
 			txs = append(txs, e.PrepareInvocation(t, w.Bytes(), []neotest.Signer{e.Committee}))
 			o.Count("op:designate")
+			if role == noderoles.StateValidator {
+				svs = append(svs, svEntry{bc.BlockHeight() + 2, n}) // designated in block tip+1, in charge from tip+2
+			}
 		}
 		commitBlock(txs)
 	}
@@ -1315,8 +1326,84 @@ func runCase(o *hx.Out, f *hx.Flags, k int, t *tb) {
 		commitBlock([]*transaction.Transaction{e.PrepareInvocation(t, w.Bytes(), []neotest.Signer{e.Validator})})
 		deferredProbe()
 	}
+	// validatedProbe: a state root signed by the designated state validators arrives (AddStateRoot): with the
+	// right root, with a wrong root (ErrStateMismatch), with a bad signature; the record must keep index and
+	// root, only the witness appears (the driver runs the model's addStateRoot)
+	validatedProbe := func() {
+		tip := bc.BlockHeight()
+		// only the latest designated set can verify: getKeyCacheForHeight (stateroot/validators.go:32-39)
+		// never returns an older key set, roots of heights before the latest designation are refused
+		if len(svs) == 0 || svs[len(svs)-1].from > tip {
+			return
+		}
+		i := uint32(r.Range(int(svs[len(svs)-1].from), int(tip)))
+		n := 0
+		for _, sv := range svs {
+			if sv.from <= i {
+				n = sv.n
+			}
+		}
+		rec := recs[i]
+		if n == 0 || rec == nil || i < 1 {
+			return
+		}
+		sr := &state.MPTRoot{Index: i, Root: rec.root}
+		kind := r.Weighted([]int{5, 2, 2})
+		if kind == 1 {
+			sr.Root[r.Intn(32)] ^= 0x40
+		}
+		privs := slices.Clone(rolePrivs[:n])
+		slices.SortFunc(privs, func(a, b *keys.PrivateKey) int { return a.PublicKey().Cmp(b.PublicKey()) })
+		pubs := make(keys.PublicKeys, n)
+		for j := range privs {
+			pubs[j] = privs[j].PublicKey()
+		}
+		script, err := smartcontract.CreateDefaultMultiSigRedeemScript(pubs)
+		if err != nil {
+			return
+		}
+		w := io.NewBufBinWriter()
+		for j := 0; j < smartcontract.GetDefaultHonestNodeCount(n); j++ {
+			sig := privs[j].SignHashable(uint32(bc.GetConfig().Magic), sr)
+			if kind == 2 {
+				sig[5] ^= 1
+			}
+			emit.Bytes(w.BinWriter, sig)
+		}
+		sr.Witness = []transaction.Witness{{InvocationScript: w.Bytes(), VerificationScript: script}}
+		sm := bc.GetStateModule()
+		adder, isAdder := sm.(interface {
+			AddStateRoot(*state.MPTRoot) error
+		})
+		if !isAdder {
+			return
+		}
+		aerr := adder.AddStateRoot(sr)
+		got := "none"
+		if cur, err := sm.GetStateRoot(i); err == nil {
+			got = fmt.Sprintf("%d %s w%d v%d", cur.Index, hex.EncodeToString(cur.Root[:]), len(cur.Witness), sm.CurrentValidatedHeight())
+		}
+		verified := 1
+		if kind == 2 {
+			verified = 0
+		}
+		o.Line(fmt.Sprintf("validated %d %s %d", i, hex.EncodeToString(sr.Root[:]), verified), got)
+		o.Count(fmt.Sprintf("validated:kind%d", kind))
+		cur, gerr := sm.GetStateRoot(i)
+		switch {
+		case gerr != nil || cur.Root != rec.root || cur.Index != i:
+			o.Fail("validated-root-changed", k, "AddStateRoot(%d, kind %d): the record of height %d is now %s, the root computed at that height was %s", i, kind, i, got, rec.root.StringLE())
+		case kind == 0 && aerr != nil:
+			o.Fail("validated-root-refused", k, "AddStateRoot(%d) with the node's own root signed by the %d designated validators: %v", i, n, aerr)
+		case kind != 0 && aerr == nil:
+			o.Fail("validated-root-accepted", k, "AddStateRoot(%d) kind %d (1 = another root, 2 = bad signature) accepted", i, kind)
+		}
+	}
 	for b := 0; b < nBlocks; b++ {
 		addRandomBlock()
+		if r.Chance(1, 3) {
+			validatedProbe()
+		}
 		if b == nBlocks/2 || r.Chance(1, 6) || (corpus && b%3 == 0) {
 			deferredProbe()
 		}
